@@ -4,7 +4,7 @@ Each module defines  register(reg) -> {property_id: {unit_name: unit}}.
 """
 import importlib
 
-MODULES = ['util', 'inputfile', 'tokenizer', 'walker', 'visitor', 'contextdb', 'parsingstate', 'encoder', 'enctables', 'collector', 'parsers']
+MODULES = ['util', 'inputfile', 'contextdb', 'tokenizer', 'collector', 'walker', 'visitor', 'parsingstate', 'encoder', 'enctables', 'parsers']
 REPLAYERS = {}
 EXTRA_ASSUMPTIONS = {}
 
@@ -31,6 +31,15 @@ def build(reg, only=None):
         for k in ('test_for_specials', 'get_specials_spec'):
             if k in units['C14']:
                 units['C11'][k] = units['C14'][k]
+    # C05 / C06 rest on the same collector / parser / tokenizer contracts as C01 and C11
+    for pid in ('C05', 'C06'):
+        if pid in units:
+            for src in ('C01',):
+                for k, u in units.get(src, {}).items():
+                    units[pid].setdefault(k, u)
+    if 'C06' in units and 'C11' in units:
+        for k in ('impl_read_macro', 'impl_read_environment', 'impl_char_token', 'peek_token', 'next_token'):
+            units['C06'].setdefault(k, units['C11'][k])
     # C13's ASCII / 'fail' statements are lemmas over C04's step contract and policy/protection contracts
     if 'C13' in units and 'C04' in units:
         for k, u in units['C04'].items():
